@@ -106,6 +106,8 @@ class C11(Prop):
         "NV.C11.callAfter_ref",
         "NV.C11.finish_ref",
         "NV.C11.tick_eq_ref",
+        "NV.C11.interval_stored_any",
+        "NV.C11.retune_keeps_position",
         "NV.C11.runRound_eq",
         "NV.C11.quiet_body",
         "NV.C11.quiet_round",
@@ -238,8 +240,23 @@ class C11(Prop):
         mk("timer-fires-mid-round", pop3 + ["script o2 hb:1 flag", "script o4 hb:* q,o4", "tick", "tick", "tick"])
         mk("timer-fires-last", pop3 + ["script o4 hb:1 flag", "tick", "tick", "tick"])
         mk("timer-fires-between", pop3 + ["do o2 flag", "tick", "tick"])
-        mk("grow-array", ["do o0 clone,o%d,0,1" % i for i in range(2, 70)] + ["script o5 hb:0 clone,o80,0,1",
+        chunk = self.heart_beat_chunk()
+        mk("grow-array", ["do o0 clone,o%d,0,1" % i for i in range(2, 2 * chunk + 6)] + ["script o5 hb:0 clone,o%d,0,1" % (2 * chunk + 20),
                           "tick", "do o0 hbs", "tick"])
+        # --- many entries (index types wider than a char): removals / retunes at the far end of a long list, in a round
+        big = 4 * chunk + 7
+        mk("many-objects", ["do o0 clone,o%d,0,1" % i for i in range(2, big)] +
+           ["script o3 hb:0 shb,o%d,0;shb,o%d,3;dest,o%d;hbs" % (big - 1, big - 2, big - 3),
+            "script o%d hb:0 shb,o2,0;shb,o%d,0;hbs" % (big - 5, big - 4), "tick", "tick", "do o0 shb,o%d,0" % (big - 6),
+            "do o0 q,o%d" % (big - 2), "do o0 hbs", "tick"])
+        # --- retune of ANOTHER, already enabled object from inside a round (C11-5 lived here): every (from, to) pair of a
+        #     list of 4, same and different interval; the object must keep its place: visited in this round iff not yet served
+        for frm in range(4):
+            for to in range(4):
+                for iv in (1, 2):
+                    mk("retune-from%d-to%d-iv%d" % (frm, to, iv),
+                       ["do o0 clone,o%d,0,1" % (i + 2) for i in range(4)] +
+                       ["script o%d hb:1 shb,o%d,%d;hbs" % (frm + 2, to + 2, iv), "tick", "tick", "do o0 hbs", "tick", "tick"])
         # --- destruct_object is a SEQUENCE: inventory hooks run before the heart-beat removal and the O_DESTRUCTED store
         carrier = ["do o0 clone,o2,0,1", "do o0 clone,o3,0,0", "do o0 clone,o4,0,1", "do o2 take,o3", "do o0 clone,o5,0,1"]
         mk("hook-wakes-dying-carrier", carrier + ["script o3 md shb,o2,1;q,o2;hbs", "tick", "do o0 dest,o2", "do o0 hbs",
@@ -352,6 +369,15 @@ class C11(Prop):
         mk("dead-and-unknown", ["do o0 clone,o2,0,1", "do o0 dest,o2", "do o0 dest,o2", "do o0 shb,o2,1", "do o0 q,o9",
                                 "do o2 hbs", "do o9 hbs", "do o0 dest,o0", "do o0 dest,o1", "do o0 clone,o2,0,1", "tick"])
         return B
+
+    def heart_beat_chunk(self):
+        """HEART_BEAT_CHUNK of the tree under test (sizes of the boundary populations are stated relative to it)"""
+        import re
+        try:
+            m = re.search(r"#define\s+HEART_BEAT_CHUNK\s+(\d+)", open(os.path.join(E.REPO, "lib/efuns/options.h")).read())
+            return min(int(m.group(1)), 256) if m else 32
+        except OSError:
+            return 32
 
     def gen_ops(self, rng, ids, allow_err=True, n=None):
         ops = []
